@@ -162,6 +162,7 @@ def runOp (st : DSt) (toks : List String) : Option (String × Option Bytes) := d
   | "s_extend_chars" => let cs ← (kvS toks "cs").bind parseCps; return ("unit", some (extendChars s cs))
   | "s_extend_strs" => let ts ← (kvS toks "ts").bind parseTexts; return ("unit", some (extendStrs s ts))
   | "s_clone" => return (s!"clone={bytesHex (clone s)}", some s)
+  | "s_clone_from" => let t ← (kvS toks "t").bind parseBytes; return ("unit", some (clone t))
   | "s_write" =>
     let t ← (kvS toks "t").bind parseBytes; let v ← (kvS toks "v").bind (·.toInt?)
     return ("unit", some (pushStr s (t ++ strBytes (toString v))))
